@@ -12,13 +12,13 @@ RULE = ("anchor x comparison tables over a 9-row alphabet (3 alpha parts x 3 bet
 ASSUMPTIONS = ["tidytcells.tr.get_aa_sequence is the trusted data source for CDR1/CDR2 (property wording)",
                "the value at [i,j] may depend only on (row i, row j): all 81 ordered row pairs are covered, tables establish locality/order/label independence",
                "rapidfuzz cdist workers=-1 answered with one thread in the bulk spaces"]
-REQUIRED_CLASSES = {"all": ["allele-without-cdr2", "empty-cdr3", "distinct-prime-weights", "permuted-index", "duplicated-index", "rejects-non-table", "free-running-threads", "cdr3-distance-beyond-bins", "table-of-thousands-of-rows"]}
+REQUIRED_CLASSES = {"all": ["allele-without-cdr2", "empty-cdr3", "distinct-prime-weights", "permuted-index", "duplicated-index", "rejects-non-table", "free-running-threads", "cdr3-distance-beyond-bins", "table-of-thousands-of-rows", "same-concatenation-different-split"]}
 MIN_OUTCOMES = 10
 SINGLE_THREAD_RAPIDFUZZ = True
 TIER = "quick"
 
-ALPHA = (("TRAV1-1*01", "CA"), ("TRAV5*01", "CAC"), ("TRAV40*01", ""))
-BETA = (("TRBV2*01", "CS"), ("TRBV6-9*01", "CSS"), ("TRBV2*01", ""))
+ALPHA = (("TRAV1-1*01", "CA"), ("TRAV5*01", "CAC"), ("TRAV40*01", ""), ("TRAV1-1*01", "C"), ("TRAV1-1*01", "CS"))
+BETA = (("TRBV2*01", "CS"), ("TRBV6-9*01", "CSS"), ("TRBV2*01", ""), ("TRBV2*01", "SC"), ("TRBV2*01", "C"), ("TRBV2*01", "CSC"))
 R = tuple(itertools.product(range(3), range(3)))
 CLASSES = ("AlphaCdr3Levenshtein", "BetaCdr3Levenshtein", "Cdr3Levenshtein", "AlphaCdrLevenshtein", "BetaCdrLevenshtein", "CdrLevenshtein")
 WNAMES = ("insertion_weight", "deletion_weight", "substitution_weight", "alpha_weight", "beta_weight", "cdr1_weight", "cdr2_weight", "cdr3_weight")
@@ -116,6 +116,7 @@ def spaces(tier):
         yield ("free",)
         for n in (24, 25, 26, 36, 51, 71, 80):
             yield ("longcdr3", n)
+        yield ("split",)
         for N in (257, 1025, 3001) + (() if q else (10001,)):
             yield ("bigtable", N)
 
@@ -287,6 +288,36 @@ def check_case(case, acc):
                     acc.fail("%s/long-cdr3/%s" % (cls, "raised-" + r.type if raised(r) else "value"), case, exp, r if raised(r) else r.tolist(), note=wname)
                     return
                 acc.ok((cls, wname, n, exp[0][1]), nontrivial=True)
+    elif kind == "split":
+        # distinct rows whose in-scope loops concatenate to the same text with another split (C|SC vs CS|C, ""|C vs C|""), rows that
+        # agree on the in-scope loops but differ elsewhere, exact duplicates - in every order of a 4-row table
+        acc.cls("same-concatenation-different-split")
+        S = [(3, 3), (4, 4), (3, 5), (2, 4), (3, 2), (4, 3), (3, 3)]      # indices into the extended ALPHA / BETA alphabets
+        for rows in itertools.permutations(range(len(S)), 4):
+            if rows[0] > rows[3]:
+                continue
+            A = table([S[i] for i in rows], "shifted")
+            for cls in ("Cdr3Levenshtein", "CdrLevenshtein", "AlphaCdr3Levenshtein"):
+                m, kw = make(cls, PRIMES)
+                r = acc.call(m.calc_cdist_matrix, A, A.iloc[::-1])
+                exp = [[ref_value(cls, kw, S[a], S[b]) for b in rows[::-1]] for a in rows]
+                v = acc.call(m.calc_pdist_vector, A)
+                expv = [ref_value(cls, kw, S[rows[i]], S[rows[j]]) for i in range(4) for j in range(i + 1, 4)]
+                if raised(r) or r.tolist() != exp or raised(v) or v.tolist() != expv:
+                    acc.fail("%s/rows-with-equal-concatenation-or-partial-duplicates" % cls, ("split1", rows, cls), exp, r if raised(r) else r.tolist())
+                    return
+                acc.ok()
+    elif kind == "split1":
+        _, rows, cls = case
+        S = [(3, 3), (4, 4), (3, 5), (2, 4), (3, 2), (4, 3), (3, 3)]
+        A = table([S[i] for i in rows], "shifted")
+        m, kw = make(cls, PRIMES)
+        r = acc.call(m.calc_cdist_matrix, A, A.iloc[::-1])
+        exp = [[ref_value(cls, kw, S[a], S[b]) for b in rows[::-1]] for a in rows]
+        if raised(r) or r.tolist() != exp:
+            acc.fail("%s/rows-with-equal-concatenation-or-partial-duplicates" % cls, case, exp, r if raised(r) else r.tolist())
+        else:
+            acc.ok()
     elif kind == "bigtable":
         # tables of a few thousand rows (rows drawn from the 9-row alphabet, so every entry is one of 81 known values)
         N = case[1]
